@@ -73,22 +73,26 @@ def audit(ctx, rep):
     return len(reached)
 
 
-def run_property(pid, tier, repo):
-    t0 = time.time()
+def evaluate(pid, configs, repo, ctx_cache=None):
+    """run the rule modules of one property under the given configurations; returns (reports, skipped, machinery,
+    fn_count, inst_count) or None when the default configuration cannot be extracted"""
     spec = props.PROPS[pid]
-    configs = spec['quick_configs'] if tier == 'quick' else spec['thorough_configs']
-    known, fixed = load_known()
     reports = []
     skipped = []
     machinery = []
     fn_count = inst_count = 0
     for cfg in configs:
         try:
-            ctx = load_ctx(cfg, repo)
+            if ctx_cache is not None and cfg in ctx_cache:
+                ctx = ctx_cache[cfg]
+            else:
+                ctx = load_ctx(cfg, repo)
+                if ctx_cache is not None:
+                    ctx_cache[cfg] = ctx
         except ExtractError as e:
             if cfg == 'default':
                 print('MACHINERY: extraction failed for the default configuration\n' + str(e), file=sys.stderr)
-                return 2, None
+                return None
             skipped.append(cfg)
             continue
         rep = Report(pid, cfg)
@@ -115,6 +119,23 @@ def run_property(pid, tier, repo):
             rep.machinery('EXCEPTION in rules: ' + traceback.format_exc())
         reports.append(rep)
         machinery += ['[%s] %s' % (cfg, m) for m in rep.machinery_errors]
+    return reports, skipped, machinery, fn_count, inst_count
+
+
+def run_property(pid, tier, repo):
+    t0 = time.time()
+    spec = props.PROPS[pid]
+    configs = spec['quick_configs'] if tier == 'quick' else spec['thorough_configs']
+    known, fixed = load_known()
+    ev0 = evaluate(pid, configs, repo)
+    if ev0 is None:
+        return 2, None
+    reports, skipped, machinery, fn_count, inst_count = ev0
+    selftest = []
+    if tier == 'thorough' and os.environ.get('VF_NO_SELFTEST') != '1':
+        import selftest as st
+        selftest, st_errors = st.run_for_property(pid, repo)
+        machinery += st_errors
     # merge violations across configurations by key
     merged = {}
     for rep in reports:
@@ -170,6 +191,7 @@ def run_property(pid, tier, repo):
             'known_findings': [v.key for v, _ in known_hits],
             'notes': notes[:20],
             'tree_sha': tree_sha(repo),
+            'selftest': selftest,
             'exhaustive': True,
         },
         'assumptions': spec['assumptions'],
